@@ -1,10 +1,14 @@
 #!/bin/bash
-# try_mutant.sh <patch.diff> <prop>... : apply to /repo, run the quick checks, undo.  Prints DETECTED/MISSED per property.
-P=$1; shift
-cd /repo && git apply "$P" || { echo "patch does not apply to /repo"; exit 2; }
-trap 'git -C /repo checkout -q -- .' EXIT
+# try_mutant.sh <patch.diff> <prop>... : applies the patch to a scratch worktree of /repo (never to /repo itself),
+# runs the quick checks against it with evidence redirected to a scratch directory, removes the worktree.
+# Prints DETECTED/MISSED per property.
+P=$(readlink -f "$1"); shift
+WT=$(mktemp -d /tmp/ikemut.XXXXXX); OUT=$(mktemp -d /tmp/ikemutout.XXXXXX)
+git -C /repo worktree add --detach "$WT" HEAD -q -f || { echo "cannot create worktree"; exit 2; }
+trap 'git -C /repo worktree remove --force "$WT" 2>/dev/null; rm -rf "$WT" "$OUT"' EXIT
+(cd "$WT" && git apply "$P") || { echo "patch does not apply"; exit 2; }
 for prop in "$@"; do
-  out=$(cd /verif && ./check $prop quick 2>&1); rc=$?
+  out=$(cd /verif && VERIF_REPO="$WT" VERIF_OUT="$OUT" ./check $prop quick 2>&1); rc=$?
   n=$(echo "$out" | grep -c '^VIOLATION')
   if [ $rc -eq 1 ] && [ $n -gt 0 ]; then echo "$prop DETECTED ($n): $(echo "$out" | grep '^VIOLATION' | head -2 | sed 's/replay=[^ ]* //' | cut -c1-260 | tr '\n' '|')"; else echo "$prop MISSED (rc=$rc): $(echo "$out" | tail -1 | cut -c1-200)"; fi
 done
